@@ -354,3 +354,252 @@ def c19(ck):
     ck.cov["decided_by"] = {"region counts, context identity, stack filtering": "spec", "region bytes vs target memory": "comparator"}
     ck.sample({"c19_event": evs[1]})
     return runs
+
+
+# ------------------------------------------------------------------------------------------ C04 .. C07, C20
+from . import threads as th_proj
+
+
+def _judge_threads(ck, evs, name, what, jobs=4):
+    out = os.path.join(ck.work, f"{name}.ndjson")
+    core.export_lines(evs, out)
+
+    def describe(hist, tag):
+        e = hist[-1]
+        brief = {k: v for k, v in e.items() if k not in ("ctx", "regs", "supplied", "exc", "blamedCtx", "blamedRegs", "maps")}
+        extra = ""
+        if e["ev"] == "c04t":
+            bad = [f for f in e["ctx"] if f in e["regs"] and e["ctx"][f] != e["regs"][f] and f not in ("cs", "ds", "es", "fs", "gs", "ss", "eflags")]
+            extra = f" fields differing from the same-named register: {bad[:6]}"
+        if e["ev"] == "c05" and e.get("withCtx") and "ctx" in e["exc"]:
+            s, c = e["supplied"], e["exc"]["ctx"]
+            bad = [f for f in c if f in s and c[f] != s[f]]
+            extra = f" context fields differing from the supplied register of the same name: {bad[:8]}; cs/gs/fs {c.get('cs')},{c.get('gs')},{c.get('fs')} vs csgsfs {s.get('csgsfs')}"
+        return ({"tag": tag}, f"{tag} in {e.get('origin')}: {json.dumps(brief)[:500]}{extra}")
+    return util.judge_parallel(ck, "Trace_Threads", out, what, "ThreadList", describe, jobs=jobs, traces=len(evs))
+
+
+def _reg_targets(quick, seed):
+    import random
+    rnd = random.Random(seed)
+    scns = []
+    for k, n in enumerate([1, 2, 5, 21, 64] if quick else [1, 2, 3, 5, 8, 13, 21, 34, 64] * 4):
+        threads = [{"mode": "pause", "stack_pages": rnd.choice([1, 2, 3]), "sp_off": rnd.randrange(0, 4096), "seed": 1000 * k + i + 1} for i in range(n - 1)]
+        if n >= 5:
+            threads[1]["mode"] = "rsp0"
+            threads[3]["mode"] = "rsp0"
+        scns.append({"id": f"regs/n{n}/{k}", "target": {"threads": threads}, "writer": {"blamed": "main"}, "want_regs": True})
+    return scns
+
+
+def c04(ck):
+    quick = ck.tier == "quick"
+    runs = dumps.run_scenarios(ck, _reg_targets(quick, ck.seed), "c04_regs")
+    evs = [e for r in runs for d in r["dumps"] for e in th_proj.c04_events(r, d)]
+    for r in runs:
+        if not r["dumps"]:
+            evs.append({"ev": "failed", "origin": r["id"]})
+    # thread-exit schedules: a thread vanishes between enumeration and attach
+    ex = []
+    for k in range(3 if quick else 30):
+        t = {"shared": True, "threads": [{"mode": "heartbeat"} for _ in range(2 + k % 3)] + [{"mode": "pause", "stack_pages": 1, "sp_off": 800}]}
+        ex.append({"id": f"exit/{k}", "target": t, "writer": {"blamed": "main"}, "want_regs": True,
+                   "faults": {"failspots": ["StopProcess"], "actions": [{"at": {"hook": "enumerate:done"}, "do": "exit", "slot": k % (2 + k % 3)}]}})
+    runs2 = dumps.run_scenarios(ck, ex, "c04_exit")
+    evs += [e for r in runs2 for d in r["dumps"] for e in th_proj.c04_events(r, d)]
+    v = _judge_threads(ck, evs, "c04", "contexts of listed threads of 1..64-thread targets vs registers read by the harness's own PTRACE_GETREGS/GETFPREGS/PEEKUSER; completeness of the list incl. sandbox (rsp==0) threads and threads exiting between enumeration and attach")
+    if v["counts"]["c04t"] == 0:
+        raise core.ToolError("vacuous: no thread context was compared")
+    ck.cov["distinct_nontrivial"] = v["counts"]["c04t"]
+    ck.cov["rule"] = "one case = one listed parked thread whose context was compared field by field (each thread loads distinct sentinels into 12 GPRs and xmm0-15); plus one completeness case per dump"
+    ck.cov["decided_by"] = {"field map ptrace -> context with truncations, list completeness": "spec", "reading the true registers": "harness ptrace oracle after the dump (threads parked in pause)"}
+    ck.sample({"c04l": next(e for e in evs if e["ev"] == "c04l")})
+    ck.assumptions += ["x86-64 only", "registers of a thread parked in a raw pause() syscall do not change between the dump and the oracle read",
+                       "snapshot consistency under running threads (spinner targets) and the ordering suspend < reads < resume are checked by the C03 schedules, see DESIGN 4/C04"]
+    return runs
+
+
+def _ctx_scenarios(quick, seed):
+    import random
+    rnd = random.Random(seed)
+    scns = []
+    for k in range(12 if quick else 300):
+        n = rnd.choice([1, 2, 4])
+        tgt = dumps.base_target(n, regions=[{"name": "code", "len": 8192, "exec": True, "below": "mapped"}])
+        blamed = rnd.choice(["main"] + [{"slot": i} for i in range(n)])
+        w = {"blamed": blamed}
+        if k % 3 != 2:
+            sp = {"thread_sp": blamed["slot"]} if isinstance(blamed, dict) else {"thread_sp": 0}
+            w["crash_context"] = {"sp": sp, "ip": {"region": "code", "off": rnd.randrange(0, 8192)}, "gregs_seed": seed * 1000 + k, "fp_seed": seed * 77 + k,
+                                  "siginfo": {"signo": rnd.choice([11, 7, 6, 4, 8]), "code": rnd.choice([1, 2, 128, -6]), "addr": hex(rnd.getrandbits(64))}}
+        scns.append({"id": f"ctx/{k}", "target": tgt, "writer": w, "want_regs": True})
+    return scns
+
+
+def c05(ck):
+    quick = ck.tier == "quick"
+    mc = core.mc_or_die("DumpSeq", "MC_DumpSeq_fresh", workers=8, timeout=1500)
+    ck.add_mc(mc, "pipeline model: the exception stream's context location is the blamed thread's context of this image (C01 alias clause, C19)")
+    runs = dumps.run_scenarios(ck, _ctx_scenarios(quick, ck.seed), "c05")
+    evs = [th_proj.c05_event(r, d) for r in runs for d in r["dumps"]]
+    evs += [{"ev": "failed", "origin": r["id"]} for r in runs if not r["dumps"]]
+    v = _judge_threads(ck, evs, "c05", "exception stream and blamed-thread context vs the supplied ucontext/fpstate/siginfo (every field distinct), and the dump-requested record without a crash context")
+    if v["counts"]["c05"] == 0:
+        raise core.ToolError("vacuous: no exception stream judged")
+    ck.cov["distinct_nontrivial"] = v["counts"]["c05"]
+    ck.cov["rule"] = "one case = one dump with a generated crash context (all 23 gregs, fp state, siginfo derived from a seed, all distinct) or without one; blamed thread = main or any other thread"
+    ck.cov["decided_by"] = {"field map ucontext -> context (incl. REG_CSGSFS unpacking, truncations), record fields, context identity": "spec"}
+    ck.sample({"c05": {k: v for k, v in next(e for e in evs if e["ev"] == "c05" and e["withCtx"]).items() if k not in ("supplied", "exc", "blamedCtx")}})
+    ck.assumptions += ["x86-64 ucontext layout (crash-context crate)", "a blamed thread that does not exist makes the required memory-info stream fail, so 'absent' is only reachable as 'not listed' (sandbox thread), covered by C19"]
+    return runs
+
+
+def _stack_scenarios(quick, seed):
+    import random
+    rnd = random.Random(seed)
+    scns = []
+    # (a) no limit: SP at many in-page offsets, stacks of 1..4 pages, every neighbour kind, SP in the guard page / hole below the stack
+    offs = [0, 1, 7, 8, 2047, 2048, 2049, 4088, 4095] + [rnd.randrange(0, 4096) for _ in range(6 if quick else 60)]
+    threads = []
+    for i, o in enumerate(offs):
+        pages = 1 + i % 4
+        threads.append({"mode": "pause", "stack_pages": pages, "sp_off": (i % pages) * 4096 + o if pages > 1 else o, "below": ["guard", "hole", "mapped"][i % 3]})
+    threads.append({"mode": "pause", "stack_pages": 2, "sp_abs_below": 24, "below": "guard"})
+    threads.append({"mode": "pause", "stack_pages": 2, "sp_abs_below": 2000, "below": "hole"})
+    scns.append({"id": "stack/nolimit", "target": {"threads": threads}, "writer": {"blamed": "main"}})
+    # (b) size limit around the estimate threshold, 24..64 threads, SP offsets on both sides of 2048
+    for k, (n, lim) in enumerate([(24, 1000), (24, 10**9), (40, 300000), (64, 5000)] if quick else [(n, l) for n in (21, 24, 33, 64) for l in (1000, 200000, 262000, 263000, 330000, 10**9)]):
+        threads = [{"mode": "pause", "stack_pages": 1 + (i % 3), "sp_off": [100, 2047, 2048, 3000, 4000, 1024, 2500][i % 7] + 4096 * (i % (1 + i % 3))} for i in range(n - 1)]
+        w = {"blamed": {"slot": n - 3}, "size_limit": lim}
+        if k % 2 == 0:
+            w["crash_context"] = {"sp": {"thread_sp": n - 3}, "ip": "0x1000"}
+        scns.append({"id": f"stack/limit{lim}/n{n}", "target": {"threads": threads}, "writer": w})
+    return scns
+
+
+def c06(ck):
+    quick = ck.tier == "quick"
+    util.mc_design(ck, "MC_StackSel", "MC_StackSel_C06", "get_stack_info walk + size limit + skip rule for one thread: SP at every offset of 4 layouts, list positions 19/20, limit on/off, crash thread or not; invariants C06, WalkIsFunction, WalkBounded; liveness Terminates", workers=8)
+    runs = dumps.run_scenarios(ck, _stack_scenarios(quick, ck.seed), "c06")
+    evs = [e for r in runs for d in r["dumps"] for e in th_proj.c06_events(r, d)]
+    evs += [{"ev": "failed", "origin": r["id"]} for r in runs if not r["dumps"] or r["dumps"][0]["outcome"] != "ok"]
+    v = _judge_threads(ck, evs, "c06", "captured stack regions of 20..64-thread targets (SP at chosen in-page offsets incl. 2047/2048/2049, in guard pages and holes; size limits around the estimate threshold) vs the stack pointer, the containing mapping and target memory")
+    if v["counts"]["c06t"] == 0 or v["counts"]["shortened"] == 0:
+        raise core.ToolError(f"vacuous: {v['counts']}")
+    ck.cov["distinct_nontrivial"] = v["counts"]["c06t"]
+    ck.cov["shortened_regions"] = v["counts"]["shortened"]
+    ck.cov["rule"] = "one case = one listed thread of one dump (its SP offset, stack size, neighbours, list position, limit); counted when judged"
+    ck.cov["decided_by"] = {"region start/length vs SP, page, mapping end, limit rule, guard walk": "spec", "bytes from SP upward vs /proc/<pid>/mem": "comparator"}
+    ck.sample({"c06t": next(e for e in evs if e["ev"] == "c06t" and e["limited"] and e["idx"] >= 20)})
+    ck.assumptions += ["the mappings StackSel sees are the /proc/<pid>/maps lines around the stack pointer (thread stacks are private anonymous mappings with PROT_NONE neighbours, which the aggregator never merges)"]
+    return runs
+
+
+def _skip_scenarios(quick, seed):
+    import random
+    rnd = random.Random(seed)
+    scns = []
+    vals = [("low-1", -1), ("low", 0), ("mid", 100), ("high-1", None), ("high", "end"), ("high+8", "end+8")]
+    for k in range(4 if quick else 60):
+        threads = []
+        for i in range(10):
+            t = {"mode": "pause", "stack_pages": 1 + i % 2, "sp_off": rnd.choice([0, 5, 8, 100, 2045])}
+            kind = rnd.choice(["none", "aligned", "unaligned", "below_sp", "edge"])
+            if kind == "aligned":
+                t["words"] = [[8 * rnd.randrange(0, 20), {"region": "prin", "off": rnd.randrange(0, 8192)}]]
+            elif kind == "unaligned":
+                t["words"] = [[8 * rnd.randrange(0, 20) + rnd.choice([1, 3, 4, 7]), {"region": "prin", "off": 64}]]
+            elif kind == "below_sp":
+                t["words"] = [[-8 * rnd.randrange(1, 4), {"region": "prin", "off": 64}]]
+            elif kind == "edge":
+                name, off = rnd.choice(vals)
+                spec = {"region_map": "prin", "off": off} if isinstance(off, int) else ({"region_map_end": "prin", "off": -8 if off is None else (0 if off == "end" else 8)})
+                if off is None:
+                    spec = {"region_map_end": "prin", "off": -1}
+                t["words"] = [[8 * rnd.randrange(0, 6), spec]]
+            threads.append(t)
+        tgt = {"threads": threads, "regions": [{"name": "prin", "len": 8192, "exec": True}]}
+        w = {"blamed": {"slot": 0}, "skip": True, "principal": {"region": "prin", "off": rnd.randrange(0, 8192)}}
+        if k % 2 == 0:
+            w["crash_context"] = {"sp": {"thread_sp": 0}, "ip": rnd.choice([{"region_map": "prin", "off": 0}, {"region_map_end": "prin", "off": 0}, {"region_map_end": "prin", "off": -1}, "0x5000"])}
+        scns.append({"id": f"skip/{k}", "target": tgt, "writer": w})
+    scns.append({"id": "skip/no-mapping", "target": dumps.base_target(3), "writer": {"blamed": "main", "skip": True, "principal": "0x6000"}})
+    return scns
+
+
+def c20(ck):
+    quick = ck.tier == "quick"
+    util.mc_design(ck, "MC_StackSel", "MC_StackSel_C20", "skip rule in the StackSel model: IP and stack words at {low-1, low, high-1, high, high+1}; invariant C20 (with C06 and the walk)", workers=8)
+    runs = dumps.run_scenarios(ck, _skip_scenarios(quick, ck.seed), "c20")
+    evs = [e for r in runs for d in r["dumps"] for e in th_proj.c20_events(r, d)]
+    evs += [{"ev": "failed", "origin": r["id"]} for r in runs if not r["dumps"] or r["dumps"][0]["outcome"] != "ok"]
+    v = _judge_threads(ck, evs, "c20", "which stacks are present under skip-if-unreferenced for threads built holding / not holding a pointer into the principal mapping (aligned, unaligned, below SP, at the mapping's edges), IP inside/outside, with and without crash context; soft-error clause")
+    if v["counts"]["excluded"] == 0:
+        raise core.ToolError("vacuous: no stack was ever excluded")
+    ck.cov["distinct_nontrivial"] = v["counts"]["c20t"]
+    ck.cov["excluded_stacks"] = v["counts"]["excluded"]
+    ck.cov["rule"] = "one case = one listed thread of a dump with skipping enabled (where its pointer into the principal mapping is, if any); plus one soft-error case per dump"
+    ck.cov["decided_by"] = {"inclusion rule on IP and aligned words, soft-error clause": "spec", "reading the thread's live stack words": "harness (/proc/<pid>/mem)"}
+    ck.sample({"c20t": next(e for e in evs if e["ev"] == "c20t" and e["words"])})
+    return runs
+
+
+def _mem_scenarios(quick, seed):
+    import random
+    rnd = random.Random(seed)
+    scns = []
+    ipoffs = [("start", {"region_map": "code", "off": 0}), ("start+127", {"region_map": "code", "off": 127}), ("start+128", {"region_map": "code", "off": 128}),
+              ("end-128", {"region_map_end": "code", "off": -128}), ("end-127", {"region_map_end": "code", "off": -127}), ("end-1", {"region_map_end": "code", "off": -1}),
+              ("end", {"region_map_end": "code", "off": 0}), ("outside", "0x7000")]
+    for k in range(len(ipoffs) + (4 if quick else 200)):
+        nreg = rnd.randrange(0, 4)
+        regions = [{"name": f"app{j}", "len": rnd.choice([1, 2, 7, 8, 4095, 4096, 4097, 100000, 1 << 20]), "lead": rnd.randrange(0, 32), "at_end": rnd.random() < 0.5,
+                    "above": rnd.choice(["hole", "guard"])} for j in range(nreg)]
+        regions.append({"name": "code", "len": rnd.choice([4096, 8192]), "exec": True, "below": rnd.choice(["mapped", "guard", "hole"]), "above": rnd.choice(["mapped", "guard", "hole"])})
+        n = rnd.choice([1, 2, 5])
+        tgt = dumps.base_target(n, regions=regions)
+        w = {"blamed": {"slot": 0}, "app_memory": [{"addr": {"region": f"app{j}"}, "len": regions[j]["len"]} for j in range(nreg)]}
+        name, ip = ipoffs[k % len(ipoffs)]
+        if k < len(ipoffs) or rnd.random() < 0.7:
+            w["crash_context"] = {"sp": {"thread_sp": 0}, "ip": ip}
+        scns.append({"id": f"mem/{k}/{name}", "target": tgt, "writer": w})
+    return scns
+
+
+def c07(ck):
+    quick = ck.tier == "quick"
+    mc = core.mc_or_die("DumpSeq", "MC_DumpSeq_fresh", workers=8, timeout=1500)
+    ck.add_mc(mc, "pipeline model: the memory list holds exactly the stacks and application regions produced in this dump, each naming a blob of this image (C01/C19 clauses about memory descriptors)")
+    scns = _mem_scenarios(quick, ck.seed)
+    runs = dumps.run_scenarios(ck, scns, "c07")
+    evs = []
+    for r in runs:
+        for d in r["dumps"]:
+            app = [(dumps_resolve(a["addr"], r["report"]), a["len"]) for a in r["scn"]["writer"].get("app_memory", [])]
+            evs.append(th_proj.c07_event(r, d, app))
+        if not r["dumps"]:
+            evs.append({"ev": "failed", "origin": r["id"]})
+    v = _judge_threads(ck, evs, "c07", "memory list of dumps with application regions of length 1 B..1 MiB at arbitrary alignments ending at unmapped pages, every thread stack, and the crash-IP window with the IP at {start, start+127, start+128, end-128, end-127, end-1, end, outside} of an executable mapping with mapped/unmapped neighbours")
+    if v["counts"]["c07"] == 0:
+        raise core.ToolError("vacuous: no memory list judged")
+    ck.cov["distinct_nontrivial"] = v["counts"]["c07"]
+    ck.cov["rule"] = "one case = one dump (its application regions, threads and crash IP position); seeded; the 8 IP positions are always included"
+    ck.cov["decided_by"] = {"region set (app regions, stacks), IP window clipping arithmetic": "spec", "byte equality of every region with /proc/<pid>/mem": "comparator"}
+    ck.sample({"c07": next(e for e in evs if e["ev"] == "c07" and e["ipMapped"])})
+    ck.cov["dumps_that_failed"] = sum(1 for e in evs if e["ev"] == "failed")
+    return runs
+
+
+def dumps_resolve(spec, report):
+    if isinstance(spec, (int,)):
+        return spec
+    if isinstance(spec, str):
+        return int(spec, 16) if spec.startswith("0x") else int(spec)
+    off = spec.get("off", 0)
+    if "region" in spec:
+        return report["regions"][spec["region"]]["addr"] + off
+    if "region_end" in spec:
+        return report["regions"][spec["region_end"]]["addr"] + report["regions"][spec["region_end"]]["len"] + off
+    if "region_map" in spec:
+        return report["regions"][spec["region_map"]]["map_start"] + off
+    raise KeyError(spec)
